@@ -15,6 +15,8 @@ DEFAULT_IGNORED = ('before_stop', 'after_stop', 'before_signal',
 def effective(outcome, flag, name=None):
     if outcome == 'true':
         return True
+    if outcome == 'raise_bare':
+        outcome = 'raise'
     if outcome in ('false', 'none'):
         # (no verdict is not "true": the flag is about exceptions)
         return False
@@ -35,7 +37,7 @@ class C14Episode(Episode):
 
     def check_events(self):
         calls = self.world.hook_calls
-        raised = sum(1 for c in calls if c[4] == 'raise')
+        raised = sum(1 for c in calls if c[4] in ('raise', 'raise_bare'))
         n_ok, n_fail = self.hook_events()
         if n_ok + n_fail != len(calls) or n_fail != raised:
             self.viol('hook_event_count',
@@ -373,6 +375,21 @@ class C14(Prop):
                         'hooks': {hook: (out, INI_FLAGS[flag])},
                         'ini_flags': {hook: flag}, 'beh': 'obedient',
                         'np': 2, 'trigger': 'start'}})
+        # exceptions that carry no message
+        for hook in START_HOOKS:
+            for flag in (False, True):
+                cases.append({'c14': {
+                    'kind': 'start', 'hooks': {hook: ('raise_bare', flag)},
+                    'beh': 'obedient', 'np': 2, 'trigger': 'start',
+                    'none': True}})
+        for cmd in ('stop', 'restart'):
+            cases.append({'c14': {'kind': 'stop', 'hooks': {
+                'before_stop': ('raise_bare', False),
+                'after_stop': ('raise_bare', False)},
+                'beh': 'obedient', 'np': 2, 'cmd': cmd, 'none': True}})
+        cases.append({'c14': {'kind': 'signal', 'hooks': {
+            'before_signal': ('raise_bare', False)}, 'beh': 'obedient',
+            'np': 2, 'cmd': 'signal', 'signum': 15, 'none': True}})
         # a replacement that is refused leaves hook and flag as they were
         for hook in START_HOOKS:
             for flag in (False, True):
